@@ -156,3 +156,100 @@ def _x_rt_check(case):
 
 base.register(base.Family("roundtrip_x", ["C01", "C09", "C15"], _x_rt_cases, _x_rt_check, weight=0.25, bound="9 shapes x random names",
                           rule="see docstring; oracle of roundtrip (3 generations, equal up to float printing)"))
+
+
+def _x_dg_cases(rng, n, tier):
+    """C16: a measured register that FOLLOWS an ordinary positional argument, sits between others, or occurs only in a keyword
+    of an operation with other operations on its own mode; an operation reading the register of its own mode"""
+    for i in range(n):
+        a, b = rng.sample(range(0, 4), 2)
+        c = rng.choice([m for m in range(0, 5) if m not in (a, b)])
+        shapes = [
+            ("reg-after-plain-arg", ["MeasureX | %d" % a, "Dgate(0.3, q%d) | %d" % (a, b), "Sgate(0.1) | %d" % a],
+             [("MeasureX", [a], []), ("Dgate", [b], [a]), ("Sgate", [a], [])]),
+            ("reg-between-plain-args", ["MeasureX | %d" % a, "MeasureX | %d" % b, "S2gate(0.5, 2*q%d, 0.1, q%d+1) | %d" % (a, b, c), "Rgate(0.2) | %d" % b],
+             [("MeasureX", [a], []), ("MeasureX", [b], []), ("S2gate", [c], [a, b]), ("Rgate", [b], [])]),
+            ("kw-reg-with-own-mode-neighbours", ["Sgate(0.4) | %d" % b, "MeasureX | %d" % a, "MeasureHomodyne(phi=0.5, select=2*q%d) | %d" % (a, b), "Rgate(0.3) | %d" % b],
+             [("Sgate", [b], []), ("MeasureX", [a], []), ("MeasureHomodyne", [b], [a]), ("Rgate", [b], [])]),
+            ("reads-own-mode-register", ["MeasureX | %d" % a, "Dgate(q%d) | %d" % (a, a), "Vac | %d" % a],
+             [("MeasureX", [a], []), ("Dgate", [a], [a]), ("Vac", [a], [])]),
+            ("same-register-twice", ["MeasureX | %d" % a, "MeasureHomodyne(q%d, select=2*q%d) | %d" % (a, a, b), "Vac | %d" % b],
+             [("MeasureX", [a], []), ("MeasureHomodyne", [b], [a]), ("Vac", [b], [])]),
+        ]
+        cls, lines, desc = shapes[i % len(shapes)]
+        yield {"class": "regs/" + cls, "input": {"script": "name t\nversion 1.0\n\n" + "\n".join(lines) + "\n",
+                                                  "ops": [{"op": o, "modes": m, "regs": r} for o, m, r in desc]}}
+
+
+def _x_dg_check(case):
+    from . import fam_prog as FP
+    return FP.dg_check(case)
+
+
+base.register(base.Family("digraph_x", ["C16", "C17"], _x_dg_cases, _x_dg_check, weight=0.15, bound="5 shapes x random modes",
+                          rule="register dependencies in unusual argument positions; oracle of digraph (nodes, forward edges, reachability = chains sharing a wire)"))
+
+
+def _x_inc_cases(rng, n, tier):
+    """C11/C12/C07: names declared only inside an included file are NOT defined in the including script; an ungrammatical included file is a
+    syntax error of the load"""
+    for i in range(n):
+        nm = ["alpha", "k", "W", "x1"][i % 4]
+        slot = ["G(%s) | 0", "G(phi=%s) | 0", "G(y=[1, %s]) | 0", "float z = 2*%s\nG(z) | 0", "G | %s"][i % 5] % nm
+        lib = "name Lib\nversion 1.0\n\nint %s = 1\nSgate(%s) | 0\n" % (nm, nm)
+        main = "name main\nversion 1.0\ninclude \"lib.xbb\"\n\nLib | 2\n%s\n" % slot
+        yield {"class": "include/name-declared-only-in-included-file", "input": {"files": {"lib.xbb": lib, "main.xbb": main}, "expect": "undefined", "name": nm}}
+    for i in range(max(2, n // 6)):
+        broken = ["name Lib\nversion 1.0\n\nSgate(0.1 | 0\n", "name Lib\nversion 1.0\n\nfloat array A =\n    1, 2 $\nSgate(1) | 0\n", "name Lib\n\nSgate(1) | 0\n"][i % 3]
+        main = "name main\nversion 1.0\ninclude \"sub/lib.xbb\"\n\nLib | 2\n"
+        yield {"class": "include/ungrammatical-included-file", "input": {"files": {"sub/lib.xbb": broken, "main.xbb": main}, "expect": "syntax"}}
+
+
+def _x_inc_check(case):
+    import os
+    import shutil
+    import tempfile
+    import blackbird
+    from blackbird.error import BlackbirdSyntaxError
+    i = case["input"]
+    d = tempfile.mkdtemp(prefix="verif_inc_")
+    try:
+        for rel, text in i["files"].items():
+            path = os.path.join(d, rel)
+            os.makedirs(os.path.dirname(path), exist_ok=True)
+            with open(path, "w") as f:
+                f.write(text)
+        try:
+            p = blackbird.load(os.path.join(d, "main.xbb"))
+        except BlackbirdSyntaxError as e:
+            if i["expect"] == "undefined" and ("'%s'" % i["name"]) not in str(e):
+                return {"expected": "BlackbirdSyntaxError naming %r" % i["name"], "actual": base.describe_exc(e)}
+            return None
+        except Exception as e:
+            return {"expected": "BlackbirdSyntaxError", "actual": base.describe_exc(e)}
+        return {"expected": "load raises BlackbirdSyntaxError (%s)" % i["expect"], "actual": "a program was returned: %r" % (p.operations,)}
+    finally:
+        shutil.rmtree(d, ignore_errors=True)
+
+
+base.register(base.Family("include_x", ["C11", "C12", "C07", "C10"], _x_inc_cases, _x_inc_check, weight=0.1, bound="4 names x 5 slots; 3 broken libraries",
+                          rule="temp directory with main.xbb + included file; the load must be refused"))
+
+
+def _x_load_cases(rng, n, tier):
+    """C02/C15: in a program that is NOT of type tdm an array named p<digits> is an ordinary variable passed by value"""
+    for i in range(n):
+        nm = ["p1", "p22", "p0"][i % 3]
+        a, b = rng.randint(1, 9), rng.randint(1, 9)
+        ty = ["", "type simulation\n", "type TDM2 (copies=1)\n"][i % 3]
+        script = "name t\nversion 1.0\n%s\nint array %s =\n    %d, %d\n\nGaussian(2, %s) | 0\nK(w=%s) | 1\n" % (ty, nm, a, b, nm, nm)
+        arr = {"arr": {"dtype": "int", "rows": [[a, b]]}}
+        exp = {"name": "t", "version": "1.0", "target": {"name": None, "options": []},
+               "type": {"name": (None if not ty else ty.split()[1]), "options": ([] if "copies" not in ty else [["copies", 1]])},
+               "operations": [{"op": "Gaussian", "modes": [0], "args": [2, arr], "kwargs": []}, {"op": "K", "modes": [1], "args": [], "kwargs": [["w", arr]]}],
+               "variables": [[nm, arr]]}
+        yield {"class": "non-tdm-array-named-like-p-array", "input": {"script": script, "expected": exp}}
+
+
+base.register(base.Family("load_denote_x", ["C02", "C15"], _x_load_cases, FL.check_script, weight=0.1, bound="3 names x 3 program types",
+                          rule="array named p<digits> in a non-tdm program is passed by value"))
